@@ -97,12 +97,12 @@ class Repo:
             from .desugar import normalise
             from .inline import inline_module
             from .tables import KNOWN_FUNCS
-            for k_, v_ in normalise(tree).items():
+            for k_, v_ in normalise(tree, fn[:-3]).items():
                 self.desugared[k_] = self.desugared.get(k_, 0) + v_
             before = dict(self.desugared)
             inline_module(tree, fn[:-3], KNOWN_FUNCS, self.desugared)
             if self.desugared != before:
-                for k_, v_ in normalise(tree).items():
+                for k_, v_ in normalise(tree, fn[:-3]).items():
                     self.desugared[k_] = self.desugared.get(k_, 0) + v_
             m = Module(fn[:-3], path, f"{PKG}/{fn}", tree, src)
             self.modules[m.name] = m
